@@ -479,9 +479,35 @@ func runC16(c *Ctx) {
 		for _, cl := range r.calls {
 			cl := cl
 			start := time.Duration(t.Choose(1500)) * time.Millisecond
+			retry := cl.kind != "GetOutputs" && t.Bool(1, 3)
+			retryDelay := time.Duration(t.Choose(200)) * time.Millisecond
 			simrt.Go(fmt.Sprintf("app-call#%d", cl.idx), func() {
 				simrt.Sleep(start)
 				r.issue(cl)
+				if retry {
+					// the same request again (same key) once the first call is over, whatever its
+					// outcome was; this time the service answers promptly
+					// (a late answer to the first request would be indistinguishable from the answer
+					// to the second: wait until the service has sent whatever it was going to send)
+					if cl.action != "drop" {
+						for i := 0; i < 600 && cl.respondedAt < 0; i++ {
+							simrt.Sleep(100 * time.Millisecond)
+						}
+						if cl.respondedAt < 0 {
+							return
+						}
+						simrt.Sleep(time.Second)
+					}
+					c.Probe("same_key_again")
+					cp := *cl
+					cl2 := &cp
+					cl2.idx = 100 + cl.idx
+					cl2.action, cl2.delay = "respond", retryDelay
+					cl2.respondedAt, cl2.requestSeenAt = -1, -1
+					cl2.err, cl2.result, cl2.done = nil, nil, false
+					r.calls = append(r.calls, cl2)
+					r.issue(cl2)
+				}
 			})
 		}
 		// unsolicited responses
@@ -494,7 +520,7 @@ func runC16(c *Ctx) {
 			id := *x.TxHash()
 			sc.Send(&client.Accept{MessageType: client.MessageTypeSendTx, Hash: &id})
 		}
-		wait := r.reqTimeout*2 + r.msgTimeout + 12*time.Second
+		wait := r.reqTimeout*4 + r.msgTimeout + 20*time.Second
 		simrt.Sleep(wait)
 		simrt.NoPreempt(func() {
 			for _, cl := range r.calls {
